@@ -203,6 +203,13 @@ struct Run
     int serverFd[2] = { -1, -1 };
     size_t peerId[2] = { 0, 0 };
     size_t baselineFds = 0;
+    std::vector<int> zombies; // client ends of connections whose peer "vanished": kept open (no FIN, no RST) until the end
+    ~Run()
+    {
+        static auto cl0 = sim::real<int (*)(int)>("close");
+        for (int fd : zombies)
+            cl0(fd);
+    }
 };
 
 static int server_fd_of_latest_peer(size_t* id)
@@ -351,8 +358,10 @@ static void run_history(const History& h, vr::Ctx& ctx, uint64_t& steps)
                 sim::fail_next_read(r.serverFd[st.conn], ETIMEDOUT);
                 c->send_bytes("G");
                 after(true);
-                c->reset(); // (the client end goes too: the history treats the connection as gone)
-                after(false);
+                // the peer has vanished: nothing more comes from it, not even a FIN or RST (its descriptor stays open,
+                // unused, until the end of the history)
+                r.zombies.push_back(c->fd);
+                c->fd = -1;
             }
             break;
         }
@@ -372,7 +381,7 @@ static void run_history(const History& h, vr::Ctx& ctx, uint64_t& steps)
         size_t peersNow = 0;
         for (auto& t : r.srv.transports())
             peersNow += t->peers.size();
-        size_t fdsNow0 = sim::list_fds().size();
+        size_t fdsNow0 = sim::list_fds().size() - r.zombies.size();
         if (gPark) // (the responses the application still holds own their armed timers: descriptors are compared at the end)
             fdsNow0 = std::min(fdsNow0, r.baselineFds);
         if (peersNow || fdsNow0 > r.baselineFds)
@@ -425,7 +434,7 @@ static void run_history(const History& h, vr::Ctx& ctx, uint64_t& steps)
     }
     if (!sim::S().bad_closes.empty())
         ctx.violation("c08:close-of-a-descriptor-that-is-not-open", d + "\"fd\":" + std::to_string(sim::S().bad_closes[0]) + "}");
-    size_t fdsNow = sim::list_fds().size();
+    size_t fdsNow = sim::list_fds().size() - r.zombies.size();
     auto ts       = r.srv.transports();
     size_t peers = 0, towrite = 0, timers = 0;
     for (auto& t : ts)
@@ -497,7 +506,7 @@ static void run_history(const History& h, vr::Ctx& ctx, uint64_t& steps)
             silent.close_orderly();
             sim::await_readiness();
             steps += sim::settle();
-            if (sim::list_fds().size() != r.baselineFds)
+            if (sim::list_fds().size() - r.zombies.size() != r.baselineFds)
                 ctx.violation("c08:silent-connection-afterwards:descriptors-not-back-at-baseline", dd);
         }
     }
